@@ -43,6 +43,7 @@ def is_int(x):
 
 
 QUANTS = [(1, 0), (1, 0.5), (1, -0.25), (4, 0), (4, 1), (4, -1), (4, 3.5), (4, -3.5), (3, 2), (3, -2),
+          (1, 0.875), (1, -0.875), (4, 3.875), (4, -3.875), (1, 0.0), (2.0, 0), (1024, 512), (0.125, -0.0625),
           (1.5, 0.5), (1.5, -1.25), (0.5, 0.25), (5, -4), (2, 1.75)]
 REFS = [0.0, 0.25, 1.0, 1.5, 3.0, 4.0, 7.75, 12.0, -2.5]
 
@@ -67,12 +68,36 @@ def probe_queries(c, hist):
             rec('TInv', H, '_beat_dur * _tempo', repr((c._beat_dur, c._tempo)), 'beat_dur * tempo must be 1')
         if Fr(b) != Fr(c.secs2beats(now)):
             rec('beats_is_secs2beats_now', H, 'beats', repr(b), 'must be secs2beats(seconds)')
+        # two sites, one value: public getters vs the fields the arithmetic uses, and derived methods vs their definition
+        for name, field in (('tempo', '_tempo'), ('beat_dur', '_beat_dur'), ('beats_per_bar', '_beats_per_bar'),
+                            ('base_bar', '_base_bar'), ('base_bar_beat', '_base_bar_beat')):
+            if getattr(c, name) != getattr(c, field) or type(getattr(c, name)) is not type(getattr(c, field)):
+                rec('two_site_consistency', H, name, repr(getattr(c, name)), 'the getter must return %s = %r' % (field, getattr(c, field)))
+        if Fr(c.secs2beats(c._base_seconds)) != Fr(c._base_beats) or Fr(c.beats2secs(c._base_beats)) != Fr(c._base_seconds):
+            rec('two_site_consistency', H, 'secs2beats(_base_seconds), beats2secs(_base_beats)', repr((c.secs2beats(c._base_seconds), c.beats2secs(c._base_beats))),
+                'the map goes through its reference point (%r, %r)' % (c._base_seconds, c._base_beats))
+        if MODE != 'rt' and Fr(c.elapsed_beats()) != Fr(c.secs2beats(M.elapsed_time())):
+            rec('two_site_consistency', H, 'elapsed_beats()', repr(c.elapsed_beats()), 'must be secs2beats(elapsed_time())')
+        if Fr(c._calc_sched_beats(1.5)) != Fr(b) + Fr(3, 2):
+            rec('two_site_consistency', H, '_calc_sched_beats(1.5)', repr(c._calc_sched_beats(1.5)), 'must be beats + 1.5')
+        if Fr(c._beats_per_bar) > 0 and Fr(c.next_time_on_grid(c._beats_per_bar)) != Fr(c.next_bar()):
+            rec('two_site_consistency', H, 'next_time_on_grid(beats_per_bar) vs next_bar()', repr((c.next_time_on_grid(c._beats_per_bar), c.next_bar())),
+                'documented to be equal')
+        if Fr(c.beats2bars(c._base_bar_beat)) != Fr(c._base_bar) or Fr(c.bars2beats(c._base_bar)) != Fr(c._base_bar_beat):
+            rec('two_site_consistency', H, 'beats2bars(_base_bar_beat), bars2beats(_base_bar)', repr((c.beats2bars(c._base_bar_beat), c.bars2beats(c._base_bar))),
+                'the bar map goes through (%r, %r)' % (c._base_bar_beat, c._base_bar))
+        for badq in (-1, -0.5):
+            try:
+                g = c.next_time_on_grid(badq, 0)
+                rec('grid_negative_quant_raises', H, 'next_time_on_grid(%r, 0)' % badq, repr(g), 'a negative quant must raise ValueError')
+            except ValueError:
+                pass
         # the grid
         G = Fr(c._base_bar_beat)
         for q, p in QUANTS:
             # also reference beats around the grid origin base_bar_beat (+ phase), where
             # refbeat - base_bar_beat - phase is negative, zero or just positive
-            near = [float(G) + d for d in (p, p - 0.125, p + 0.125, -q, -0.25, 0.0, p - q, 0.375)]
+            near = [float(G) + d for d in (p, p - 0.125, p + 0.125, -q, -0.25, 0.0, p - q, 0.375, p + q, p + 3 * q, p - 2 * q)]
             for ref in REFS + near + [b, None]:
                 g = c.next_time_on_grid(q, p) if ref is None else c.next_time_on_grid(q, p, ref)
                 r = Fr(b) if ref is None else Fr(ref)
@@ -96,7 +121,8 @@ def probe_queries(c, hist):
         if Fr(c._bars_per_beat) * bpb != 1 or not is_int(c._base_bar):
             rec('meter_change_rebases', H, '_bars_per_beat, _beats_per_bar, _base_bar', repr((c._bars_per_beat, c._beats_per_bar, c._base_bar)),
                 'bars_per_beat * beats_per_bar = 1 and base_bar is an integer')
-        for x in REFS + [b]:
+        barlines = [float(Fr(c._base_bar_beat) + k * bpb) for k in (-2, -1, 0, 1, 3)]      # exactly on a bar line
+        for x in REFS + barlines + [b]:
             if Fr(c.bars2beats(c.beats2bars(x))) != Fr(x):
                 rec('bars_beats_inverse', H, 'bars2beats(beats2bars(%r))' % x, repr(c.bars2beats(c.beats2bars(x))), 'must be %r' % x)
             if Fr(c.beats2bars(c.bars2beats(x))) != Fr(x):
@@ -106,6 +132,8 @@ def probe_queries(c, hist):
                 rec('next_bar_not_before', H, 'next_bar(%r)' % x, repr(nb), 'is before the beat')
             elif not is_int(c.beats2bars(nb)):
                 rec('next_bar_is_barline', H, 'next_bar(%r)' % x, repr(nb), 'beats2bars of it is %r, not an integer' % c.beats2bars(nb))
+            elif x in barlines and Fr(nb) != Fr(x):
+                rec('next_bar_not_before', H, 'next_bar(%r)' % x, repr(nb), 'the beat is a bar line: must return the same number')
             elif Fr(nb) >= Fr(x) + bpb:
                 rec('next_bar_not_before', H, 'next_bar(%r)' % x, repr(nb), 'skips a bar line (beats_per_bar %r)' % float(bpb))
         nb = c.next_bar()
@@ -120,6 +148,33 @@ def probe_queries(c, hist):
             rec('beat_in_bar_range', H, 'bar()', repr(br), 'must be floor(beats2bars(beats)) = floor(%r)' % float(x))
     except Exception as e:
         rec('raised', H, 'queries', '%s: %s' % (type(e).__name__, e), 'a query raised on valid arguments')
+
+
+FIELDS = ['_tempo', '_beat_dur', '_base_seconds', '_base_beats', '_beats_per_bar', '_bars_per_beat', '_base_bar', '_base_bar_beat']
+
+
+def probe_failed_changes(c, H):
+    """Error paths: a change that raises must leave the clock exactly as it was (then every law still holds)."""
+    for what, f in (('tempo = 0', lambda: setattr(c, 'tempo', 0)), ('tempo = -1.0', lambda: setattr(c, 'tempo', -1.0)),
+                    ('etempo(0.0)', lambda: c.etempo(0.0)), ('beats_per_bar = 0', lambda: setattr(c, 'beats_per_bar', 0)),
+                    ('beats_per_bar = 0.0', lambda: setattr(c, 'beats_per_bar', 0.0)),
+                    ('next_time_on_grid(-1, 0)', lambda: c.next_time_on_grid(-1, 0)),
+                    ('play(f, quant=-1)', lambda: c.play(lambda: None, -1))):
+        before = [(getattr(c, f_), type(getattr(c, f_))) for f_ in FIELDS]
+        try:
+            f()
+            rec('failed_change_leaves_clock_unchanged', H, what, 'no exception', 'must raise')
+            return
+        except (ValueError, ZeroDivisionError):
+            pass
+        except Exception as e:
+            rec('failed_change_leaves_clock_unchanged', H, what, '%s: %s' % (type(e).__name__, e), 'must raise ValueError / ZeroDivisionError')
+        after = [(getattr(c, f_), type(getattr(c, f_))) for f_ in FIELDS]
+        if after != before:
+            rec('failed_change_leaves_clock_unchanged', H, what + ' (raised)',
+                repr({f_: a[0] for f_, a, b in zip(FIELDS, after, before) if a != b}),
+                'the call raised but changed these fields (before: %r)' % {f_: b[0] for f_, a, b in zip(FIELDS, after, before) if a != b})
+            return
 
 
 def run_history(hist, init, plays, play_after=1):
@@ -166,12 +221,16 @@ def run_history(hist, init, plays, play_after=1):
 
     def driver(inval):
         c = inval[1]
+        if rt:
+            time.sleep(0.06)
         probe_queries(c, [])
         n = 0
         if play_after == 0:
             for q, p in plays:
                 spawn(c, q, p, list(HIST))
         for kind, v, y in hist:
+            if rt:
+                time.sleep(0.06)       # run LATE: physical time is well past the logical time of this routine
             now = c.seconds
             b0 = c.beats
             bars0 = c.beats2bars(b0)
@@ -219,6 +278,8 @@ def run_history(hist, init, plays, play_after=1):
         if n < play_after:
             for q, p in plays:
                 spawn(c, q, p, list(HIST))
+        probe_failed_changes(c, list(HIST))
+        probe_queries(c, list(HIST) + [['then, each raising: tempo = 0, tempo = -1.0, etempo(0.0), beats_per_bar = 0, beats_per_bar = 0.0']])
 
     q0, p0 = plays[0] if plays else (1, 0)
 
@@ -259,10 +320,94 @@ def run_history(hist, init, plays, play_after=1):
         def boot(inval):
             start(TempoClock(*init))
         Routine(boot).play(SystemClock)
-        M.process()
+        M._clock_scheduler.run()    # main.process() without closing the OSC score (times may be negative here)
         if len(done) != expected[0] or not state['driver']:
             rec('play_quant_schedules_on_grid', [list(h[:2]) for h in hist], 'play', '%d of %d played routines ran' % (len(done), expected[0]),
                 'every played routine must run')
+
+
+def probe_constructor():
+    """The documented constructor arguments, every optional one also as an explicit 0 / 0.0 / -0.0:
+    TempoClock(tempo, beats, seconds) relates (seconds, beats) -- `seconds` defaults to the logical time of the
+    calling thread only when it is omitted."""
+    if MODE == 'rt':
+        return
+    M.reset()
+
+    def boot(inval):
+        yield 5.0
+        now = M.current_tt._seconds
+        for tempo in (1, 2.0, None, 0, 0.0):
+            for beats in (None, 0, 0.0, -0.0, 2.5, 3):
+                for seconds in (None, 0, 0.0, -0.0, 1.5, 7):
+                    CUR['init'] = [tempo, beats, seconds]
+                    call = 'TempoClock(%r, %r, %r) created at logical second %r' % (tempo, beats, seconds, now)
+                    try:
+                        c = TempoClock(tempo, beats, seconds)
+                    except Exception as e:
+                        rec('constructor_reference_point', [], call, '%s: %s' % (type(e).__name__, e), 'valid arguments raised')
+                        continue
+                    t = Fr(tempo) if tempo else Fr(1)
+                    ref_s = Fr(now) if seconds is None else Fr(seconds)
+                    ref_b = Fr(beats) if beats is not None else Fr(0)
+                    if Fr(c.secs2beats(float(ref_s))) != ref_b or Fr(c.beats) != ref_b + (Fr(now) - ref_s) * t:
+                        rec('constructor_reference_point', [], call, 'secs2beats(%r) = %r, beats = %r' % (float(ref_s), c.secs2beats(float(ref_s)), c.beats),
+                            'the map must go through (seconds, beats) = (%r, %r), so beats now = %r' % (float(ref_s), float(ref_b), float(ref_b + (Fr(now) - ref_s) * t)))
+                    if Fr(c._beat_dur) * Fr(c._tempo) != 1 or Fr(c._tempo) != t:
+                        rec('TInv', [], call, repr((c._tempo, c._beat_dur)), 'tempo %r and beat_dur * tempo = 1' % float(t))
+    Routine(boot).play(SystemClock)
+    M._clock_scheduler.run()    # main.process() without closing the OSC score (times may be negative here)
+
+
+def probe_main_thread_rt():
+    """RT, calls made from the MAIN thread several times in a row: every read of the main thread's time refreshes
+    from physical time, so nothing is exact; only what must hold whatever the load: results on the grid, not before
+    a beat read earlier, bounded by later reads, and no jump of the current beat across a change."""
+    t0 = math.floor((M.elapsed_time() + 0.03) * 256) / 256
+    CUR['init'] = [16.0, 0.0, t0]
+    c = TempoClock(16.0, 0.0, t0)
+    H = []
+    try:
+        last_g = last_nb = None
+        for i in range(4):
+            b0 = c.beats
+            g = c.next_time_on_grid(1, 0.25)
+            nb = c.next_bar()
+            d = c.time_to_next_beat(1)
+            b1 = c.beats
+            call = 'main thread, round %d: beats, next_time_on_grid(1, 0.25), next_bar(), time_to_next_beat(1), beats' % i
+            if not is_int(Fr(g) - Fr(1, 4)) or not (b0 <= g <= b1 + 1) or (last_g is not None and g < last_g):
+                rec('grid_not_before_ref', H, call, repr((b0, g, b1)), 'on the grid, not before the beat read before, within one quant of the beat read after, non-decreasing')
+            if not is_int(Fr(nb) / 4) or not (b0 <= nb <= b1 + 4) or (last_nb is not None and nb < last_nb):
+                rec('next_bar_not_before', H, call, repr((b0, nb, b1)), 'a bar line, not before the beat read before, within one bar of the beat read after')
+            if not (-(b1 - b0) - 1e-9 <= d <= 1):
+                rec('time_to_next_beat_range', H, call, repr((b0, d, b1)), 'between -(time passed during the call) and quant')
+            last_g, last_nb = g, nb
+            time.sleep(0.01)
+        for kind, v in (('tempo', 4.0), ('beats', 100.0), ('etempo', 8.0), ('tempo', 2)):
+            t_a = M.elapsed_time()
+            b_a = c.beats
+            old = c._tempo
+            if kind == 'tempo':
+                c.tempo = v
+            elif kind == 'etempo':
+                c.etempo(v)
+            else:
+                c.beats = v
+            b_b = c.beats
+            t_b = M.elapsed_time()
+            H = H + [[kind, v]]
+            lo = Fr(v) if kind == 'beats' else Fr(b_a)
+            hi = lo + Fr(t_b - t_a) * max(Fr(old), Fr(c._tempo)) + Fr(1, 10**6)
+            if not (lo - Fr(1, 10**9) <= Fr(b_b) <= hi):
+                rec({'tempo': 'tempo_change_continuous', 'etempo': 'etempo_continuous', 'beats': 'beats_set_continuous'}[kind], H,
+                    'main thread: %s = %r' % (kind, v), repr((b_a, b_b, t_b - t_a)),
+                    'the current beat may only advance by the time that passed times the tempo')
+            if abs(Fr(c._beat_dur) * Fr(c._tempo) - 1) > Fr(1, 10**12):
+                rec('TInv', H, kind, repr((c._tempo, c._beat_dur)), 'beat_dur * tempo = 1')
+    except Exception as e:
+        rec('raised', H, 'main thread calls', '%s: %s' % (type(e).__name__, e), 'raised')
+    c.stop()
 
 
 def main():
@@ -279,6 +424,9 @@ def main():
             k = rng.choice(['tempo', 'tempo', 'tempo', 'beats_rel', 'meter'])
             v = rng.choice(tempi) if k == 'tempo' else rng.choice(meters) if k == 'meter' else rng.choice([0.0, 0.25, 0.625, 1.5])
             return (k, v, rng.choice([0, 0.125, 0.25, 0.5]))
+        probe_main_thread_rt()
+        # late routine, fast clock, short bars: a method that took physical time would be more than a bar off
+        run_history([('meter', 0.5, 0.125), ('beats_rel', 0.25, 0.125), ('tempo', 8.0, 0)], (16.0, 0.0), rplays[:2])
         # shortest first: one tempo change from a routine on the clock, after a yield (so that logical and physical time differ)
         run_history([('beats_rel', 0.0, 0.25), ('tempo', 4.0, 0.125)], (2.0, 0.0), rplays[:2])
         run_history([('meter', 2.0, 0.25), ('tempo', 8.0, 0.25), ('beats_rel', 0.625, 0.125)], (4.0, 1.25), rplays[2:4])
@@ -288,8 +436,8 @@ def main():
         json.dump({'bad': bad, 'mode': MODE}, open(sys.argv[2], 'w'))
         sys.stdout.flush()
         os._exit(0)
-    tempi = [0.25, 0.5, 1.0, 2.0, 4.0, 2, 8]
-    meters = [0.5, 1.0, 2.0, 4.0, 8.0, 2, 4]
+    tempi = [0.25, 0.5, 1.0, 2.0, 4.0, 2, 8, 1024.0, 1 / 256]
+    meters = [0.5, 1.0, 2.0, 4.0, 8.0, 2, 4, 64]
     beats = [0.0, 1.0, 2.5, -3.0, 7.75, 100.5, 5]
 
     def op():
@@ -297,6 +445,7 @@ def main():
         v = rng.choice(tempi if k in ('tempo', 'etempo') else meters if k == 'meter' else beats)
         return (k, v, rng.choice([0, 0.25, 1.0, 1.5, 3.0]))
     # shortest first
+    probe_constructor()
     run_history([], (), [(1, 0)])
     run_history([], (2.0,), plays)
     for k in ('tempo', 'etempo', 'beats', 'meter'):
